@@ -27,6 +27,9 @@ type chanNet struct {
 	dup   int // percent
 	sent  int
 	lost  int
+	// side: during a partition, the group (1 or 2) of each address; packets between
+	// different groups are lost. Empty = no partition.
+	side map[string]int
 }
 
 type chanPC struct {
@@ -61,6 +64,9 @@ func (p *chanPC) WriteTo(b []byte, a net.Addr) (int, error) {
 	drop := nw.rng.Intn(100) < nw.loss
 	dup := nw.rng.Intn(100) < nw.dup
 	if p.down || dst == nil || dst.down {
+		drop = true
+	}
+	if len(nw.side) > 0 && nw.side[p.addr] != nw.side[a.String()] {
 		drop = true
 	}
 	if drop {
@@ -130,7 +136,7 @@ func startAsync(c *vlib.Case, n int, maxPacket int, seed int64) (*chanNet, []*as
 }
 
 func TestC03Async(t *testing.T) {
-	vlib.SetRule("C03", "TestC03Async", "3-5 real gossip.New instances (real scheduler goroutines, random peer selection, shuffled digests, failure detector, periodic compaction and expiry) over a channel network inside the virtual-time bubble; a drawn write/delete/compaction workload (in a third of the cases uniform entries with the packet limit set to the exact size of a delta of 4-7 of them, so that datagrams use the whole limit to the byte) runs for 20-60 virtual seconds under 10-40 % loss and 0-20 % duplication, then writes stop and loss ends; oracle: within 10 virtual minutes every node's view of every node equals that node's own state (keys, values, deletion markers, version); every case is non-trivial")
+	vlib.SetRule("C03", "TestC03Async", "3-5 real gossip.New instances (real scheduler goroutines, random peer selection, shuffled digests, failure detector, periodic compaction and expiry) over a channel network inside the virtual-time bubble; a drawn write/delete/compaction workload (in a third of the cases uniform entries with the packet limit set to the exact size of a delta of 4-7 of them, so that datagrams use the whole limit to the byte) runs for 20-60 virtual seconds under 10-40 % loss and 0-20 % duplication, optionally followed by a symmetric partition (two groups of >= 2 nodes, 5-40 s, writes continuing); then writes stop and the network heals; oracle: within 10 virtual minutes every node's view of every node equals that node's own state (keys, values, deletion markers, version) and no live node is considered unreachable; every case is non-trivial")
 	vlib.RunSync(t, "C03", func(c *vlib.Case) {
 		N := c.Int("nodes", 3, 5)
 		mv := minViablePacket("n0", "127.0.0.1:7000")
@@ -195,6 +201,46 @@ func TestC03Async(t *testing.T) {
 				time.Sleep(time.Duration(c.Int("waitMs", 10, 2000)) * time.Millisecond)
 			}
 		}
+		// a symmetric partition: two groups of at least two nodes cannot reach each other
+		// for long enough to suspect each other (but not to expire each other), keep
+		// writing, and must find each other again afterwards
+		if N >= 4 && c.Chance("partition", 1, 2) {
+			side := map[string]int{}
+			for i, n := range nodes {
+				side[n.addr] = 1 + i%2
+			}
+			nw.mu.Lock()
+			nw.side = side
+			nw.mu.Unlock()
+			d := time.Duration(c.Int("partitionSeconds", 5, 40)) * time.Second
+			for el := time.Duration(0); el < d; el += time.Second {
+				time.Sleep(time.Second)
+				if c.Chance("writeDuringPartition", 1, 3) {
+					n := nodes[c.Pick("node", N)]
+					if exactFit {
+						k, v := uniform(c.Int("u", 0, 40))
+						n.g.UpsertLocal(k, v)
+					} else {
+						n.g.UpsertLocal(simKeys[c.Pick("key", len(simKeys))]+fmt.Sprint(c.Int("k", 0, 6)), s2(c))
+					}
+				}
+			}
+			suspected := 0
+			for _, n := range nodes {
+				for _, m := range n.g.Nodes() {
+					if m.Unreachable {
+						suspected++
+					}
+				}
+			}
+			nw.mu.Lock()
+			nw.side = nil
+			nw.mu.Unlock()
+			c.Stepf("symmetric partition of %v: %d (observer, peer) pairs suspected at the end", d, suspected)
+			if suspected > 0 {
+				c.Class("healed-after-mutual-suspicion")
+			}
+		}
 		nw.mu.Lock()
 		nw.loss, nw.dup = 0, 0
 		nw.mu.Unlock()
@@ -212,6 +258,9 @@ func TestC03Async(t *testing.T) {
 					}
 					if got.Version != want.Version || !reflect.DeepEqual(got.Entries, want.Entries) {
 						return false, fmt.Sprintf("%s sees %s at version %d (%d entries), owner is at %d (%d entries)", x.id, o.id, got.Version, len(got.Entries), want.Version, len(want.Entries))
+					}
+					if got.Unreachable {
+						return false, fmt.Sprintf("%s still considers the live node %s unreachable", x.id, o.id)
 					}
 				}
 			}
@@ -239,7 +288,7 @@ func s2(c *vlib.Case) string {
 }
 
 func TestC11Async(t *testing.T) {
-	vlib.SetRule("C11", "TestC11Async", "3-4 real gossip.New instances in the virtual-time bubble; one node crashes (its sockets go silent) after a drawn uptime; oracle: every survivor marks it unreachable within 2 virtual minutes and never marks itself or another survivor unreachable for good, the crashed node is excluded from live nodes while marked; whether it stays forgotten after expiry is recorded as known finding F2 (re-learned from a survivor's digest) rather than asserted; every case is non-trivial")
+	vlib.SetRule("C11", "TestC11Async", "3-4 real gossip.New instances in the virtual-time bubble; half of the clusters also know a peer whose advertised address cannot be used (every send to it fails); one node crashes (its sockets go silent) after a drawn uptime; oracle: every survivor marks it unreachable within 45 virtual seconds and never marks itself or another survivor unreachable for good, the crashed node is excluded from live nodes while marked; whether it stays forgotten after expiry is recorded as known finding F2 (re-learned from a survivor's digest) rather than asserted; every case is non-trivial")
 	vlib.RunSync(t, "C11", func(c *vlib.Case) {
 		N := c.Int("nodes", 3, 4)
 		nw, nodes := startAsync(c, N, 1400, int64(c.Int("netSeed", 1, 1<<30)))
@@ -253,14 +302,30 @@ func TestC11Async(t *testing.T) {
 		for _, n := range nodes {
 			n.g.UpsertLocal("k", n.id)
 		}
-		time.Sleep(time.Duration(c.Int("uptimeSec", 2, 40)) * time.Second)
+		// half of the clusters also know of a peer whose advertised address cannot be
+		// used (no port): every attempt to gossip with it fails on the sending side.
+		// Nothing else may depend on those attempts succeeding.
+		ghost := c.Bool("unusablePeerAddress")
+		uptime := time.Duration(c.Int("uptimeSec", 2, 40)) * time.Second
+		if ghost {
+			for _, n := range nodes {
+				n.g.VerifSeed(gossip.VerifDigest{{ID: "ghost", Addr: "ghost-address-without-port"}})
+			}
+			// the crash falls into the time in which the unusable peer is known and
+			// already suspected (it is forgotten a minute after that)
+			uptime = time.Duration(c.Int("uptimeSecGhost", 6, 14)) * time.Second
+			c.Class("peer-with-unusable-address")
+		}
+		time.Sleep(uptime)
 		victim := nodes[c.Pick("victim", N)]
 		nw.mu.Lock()
 		victim.pc.down = true
 		nw.mu.Unlock()
 		c.Stepf("%s crashes", victim.id)
+		// measured: 3-10 virtual seconds (20 times the mean interval between packets of
+		// the victim); the bound is 45
 		flagged := false
-		for sec := 0; sec < 120 && !flagged; sec++ {
+		for sec := 0; sec < 45 && !flagged; sec++ {
 			time.Sleep(time.Second)
 			flagged = true
 			for _, s := range nodes {
@@ -283,7 +348,7 @@ func TestC11Async(t *testing.T) {
 			}
 		}
 		if !flagged {
-			c.Fatalf("C11: survivors did not all mark the silent node %s unreachable within 2 virtual minutes", victim.id)
+			c.Fatalf("C11: survivors did not all mark the silent node %s unreachable within 45 virtual seconds (unusable peer address present: %v)", victim.id, ghost)
 		}
 		// survivors stay reachable to each other
 		time.Sleep(5 * time.Second)
